@@ -14,7 +14,9 @@ def nspec(ctx: Ctx, prop: str) -> int:
     q, t = NSPEC[prop]
     if os.environ.get("VERIF_NSPEC"):
         return int(os.environ["VERIF_NSPEC"])
-    return t if ctx.thorough else q
+    if ctx.tier == "thorough":
+        return t
+    return 3 * q if ctx.escalated else q   # modelled sources changed since the pin: look harder, still "quick"
 
 
 def disagree(ctx: Ctx, case: Case, what: str, detail: dict, corr: str, prop: str, key=None) -> bool:
@@ -97,7 +99,7 @@ def run_c02(ctx: Ctx):
                 per_class = []
                 for cname in case.info.classes():
                     ci = case.info.cls(cname)
-                    for _ in range(6 if ctx.thorough else 4):
+                    for _ in range(6 if (ctx.tier == "thorough") else 4):
                         kw = ci.random_kwargs(rng, valid=True, lossless=False)
                         obj, real_new, model_new = construct_both(ctx, case, cname, kw)
                         if real_new.split()[0] != model_new.split()[0] or (obj is None and real_new != model_new):
@@ -262,7 +264,7 @@ def run_c03(ctx: Ctx, avoid_known_bugs=True):
             for cname in case.info.classes():
                 cls = case.run.get_class(cname)
                 sers = [b for _, b in valid_serialisations(ctx, case, cname, 2)]
-                inputs = specgen.random_bytes(rng, sers, cap_prefixes=14 if not ctx.thorough else 40)
+                inputs = specgen.random_bytes(rng, sers, cap_prefixes=14 if not (ctx.tier == "thorough") else 40)
                 reals = {}
                 lines = []
                 for data in inputs:
@@ -359,7 +361,7 @@ def run_c01(ctx: Ctx):
             n_spec += 1
             for cname in case.info.classes():
                 cls = case.run.get_class(cname)
-                for obj, data in valid_serialisations(ctx, case, cname, 6 if ctx.thorough else 4, lossless=True):
+                for obj, data in valid_serialisations(ctx, case, cname, 6 if (ctx.tier == "thorough") else 4, lossless=True):
                     n_obj += 1
                     ro = genlib.render(obj)
                     reader = case.run.EoReader(data)
@@ -590,7 +592,7 @@ def run_c16(ctx: Ctx):
             for cname in case.info.classes():
                 cls = case.run.get_class(cname)
                 ci = case.info.cls(cname)
-                for _ in range(10 if ctx.thorough else 6):
+                for _ in range(10 if (ctx.tier == "thorough") else 6):
                     try:
                         kw, what = ci.random_kwargs(rng, valid=False)
                     except Exception:  # noqa: BLE001
@@ -792,9 +794,9 @@ RULES = {
 def run_c17(ctx: Ctx):
     rng = ctx.rng
     n = n_spec = 0
-    nsp = int(__import__("os").environ.get("VERIF_NSPEC", 0)) or (120 if ctx.thorough else 6)
+    nsp = int(__import__("os").environ.get("VERIF_NSPEC", 0)) or (120 if (ctx.tier == "thorough") else 6)
     for idx, case in enumerate(gencheck.spec_stream(ctx, nsp)):
-        if not ctx.thorough and case.flags.get("catalogue") and idx % 2 == 1:
+        if not (ctx.tier == "thorough") and case.flags.get("catalogue") and idx % 2 == 1:
             continue
         base = genlib.GenRun(case.files)
         try:
@@ -803,7 +805,7 @@ def run_c17(ctx: Ctx):
         finally:
             base.cleanup()
         n_spec += 1
-        for rule, placement, files in mutspec.all_edits(case.files, rng, per_rule_placements=3 if ctx.thorough else 2):
+        for rule, placement, files in mutspec.all_edits(case.files, rng, per_rule_placements=3 if (ctx.tier == "thorough") else 2):
             ed = Case(files, f"{case.tag}+{rule}@{placement}", dict(case.flags, rule=rule, placement=placement))
             ed.run = genlib.GenRun(files)
             try:
@@ -887,9 +889,9 @@ def run_c18(ctx: Ctx):
     repo = os.environ.get("VERIF_REPO", "/repo")
     here = os.path.dirname(os.path.abspath(__file__))
     n_runs = n_spec = n_names = 0
-    nsp = int(os.environ.get("VERIF_NSPEC", 0)) or (60 if ctx.thorough else 6)
+    nsp = int(os.environ.get("VERIF_NSPEC", 0)) or (60 if (ctx.tier == "thorough") else 6)
     for idx, case in enumerate(gencheck.spec_stream(ctx, nsp, avoid_known_bugs=True)):
-        if not ctx.thorough and case.flags.get("catalogue") and idx % 3 != 0:
+        if not (ctx.tier == "thorough") and case.flags.get("catalogue") and idx % 3 != 0:
             continue
         case.files = complete_tree(case.files)
         try:
@@ -922,9 +924,9 @@ def run_c18(ctx: Ctx):
                         return
             # --- determinism under configurations, in subprocesses
             configs = []
-            seeds = ["0", "1", "random"] + (["2", "12345"] if ctx.thorough else [])
+            seeds = ["0", "1", "random"] + (["2", "12345"] if (ctx.tier == "thorough") else [])
             for hs in seeds:
-                for ws in ["-", str(rng.randrange(10 ** 6))] + ([str(rng.randrange(10 ** 6))] if ctx.thorough else []):
+                for ws in ["-", str(rng.randrange(10 ** 6))] + ([str(rng.randrange(10 ** 6))] if (ctx.tier == "thorough") else []):
                     configs.append((hs, ws, rng.choice(["fresh,again", "fresh,same,again", "failfirst,again", "fresh,same", "fresh,same"])))
             scratch = tempfile.mkdtemp(prefix="c18-", dir="/var/tmp")
             try:
@@ -950,7 +952,7 @@ def run_c18(ctx: Ctx):
                 # --- importability in a fresh interpreter: every declared type from the top level and from its home subpackage
                 types = declared_types(case.files)
                 names = [[n, "eolib.protocol" + ("." + d.replace("/", ".") if d else "")] for n, d, _ in types]
-                firsts = ["-", "eolib.protocol.net.client", "eolib.data"] if ctx.thorough else ["-", rng.choice(["eolib.protocol.net", "eolib.packet"])]
+                firsts = ["-", "eolib.protocol.net.client", "eolib.data"] if (ctx.tier == "thorough") else ["-", rng.choice(["eolib.protocol.net", "eolib.packet"])]
                 for first in firsts:
                     p = subprocess.run([sys.executable, os.path.join(here, "importworker.py"), case.run.src, first, _json.dumps(names)],
                                        capture_output=True, text=True, timeout=120)
